@@ -9,7 +9,9 @@
      k="send"     id = sid (1, 2, ... in order), a = projection id of the event
                   handed to send (name, args, kwargs, channels, success, failure,
                   notify), b = 1 iff the send firewall accepts it (no firewall:
-                  1), c = 1 iff the receive firewall accepts it
+                  1), c = 1 iff the receive firewall accepts it, s = "nr" iff
+                  nobody waits for the result (node_without_result, as
+                  Server.send(no_result=True) / send_to / send_all)
      k="wr"       id = side that fired a `write` event, a = bytes
      k="read"     id = direction, a = bytes handed to the receiver in one read
      k="exec"     id = sid, a = projection id of the event as loaded by the
@@ -23,7 +25,9 @@
                   the wire; a = 1 iff metadata class, s = metadata key / class
      k="hattr"    id = side; an event built from a hostile packet: s = metadata
                   key supplied by the peer, a = 1 iff the event's attribute s
-                  holds the peer's value, b = 0 at load time / 1 when dispatched
+                  holds the peer's value, b = 0 at load time / 1 when dispatched;
+                  b = 2: the packet was a *value* packet answering a call and
+                  the event is the sender's event waiting for that call
      k="escape"   id = side; an exception left Manager.tick() (run() ends)
      k="probe"    id = side; a = 1 iff a probe event fired now was dispatched
      k="quiet"    all bytes handed over, all handlers released, all settled
@@ -55,7 +59,7 @@ Strict(e) == e.sok /\ e.rok
 QuietFail(P) ==
   IF \E i \in 1..Len(P.ev) : Strict(P.ev[i]) /\ ~P.h0 /\ P.ev[i].ex = 0
     THEN "C19.lost"
-  ELSE IF \E i \in 1..Len(P.ev) : Strict(P.ev[i]) /\ ~P.h0 /\ ~P.h1
+  ELSE IF \E i \in 1..Len(P.ev) : Strict(P.ev[i]) /\ ~P.h0 /\ ~P.h1 /\ ~P.ev[i].nr
                                    /\ P.ev[i].rel # 0 /\ P.ev[i].del = 0
     THEN "C19.result"
   ELSE ""
@@ -79,7 +83,8 @@ Fail(P, ln) ==
     [] ln.k = "deliver" ->
          IF ~Known(P, ln.id) THEN "C19.malformed"
          ELSE LET e == P.ev[ln.id] IN
-              IF ~Strict(e) \/ P.h1 THEN ""        \* C19 is silent
+              IF e.nr THEN "C19.malformed"          \* nobody waits for it
+              ELSE IF ~Strict(e) \/ P.h1 THEN ""   \* C19 is silent
               ELSE IF e.del >= 1 THEN "C19.result"  \* resumed twice
               ELSE IF e.rel = 0 THEN "C19.result"   \* before the callee finished
               ELSE IF e.rel = 1 /\ (ln.a # e.val \/ ln.b # 0) THEN "C19.result"
@@ -92,7 +97,7 @@ Fail(P, ln) ==
     [] ln.k = "quiet" -> QuietFail(P)
     [] OTHER -> ""
 
-NewEv(ln) == [proj |-> ln.a, sok |-> ln.b = 1, rok |-> ln.c = 1,
+NewEv(ln) == [proj |-> ln.a, sok |-> ln.b = 1, rok |-> ln.c = 1, nr |-> ln.s = "nr",
               ex |-> 0, rel |-> 0, val |-> 0, del |-> 0]
 
 Apply(P, ln) ==
